@@ -18,7 +18,7 @@ RULE = ("Cases = (measure, matrix, parameters). Random-walk measures (mean_first
         "defining equation (MFPT recursion, PageRank fixed point) and scipy.linalg.expm / numpy matrix_power / eigvalsh references. "
         "Non-trivial = (spectral) the graph has a repeated eigenvalue (gap < 1e-9); (random-walk) the chain is periodic (bipartite) or the "
         "graph is directed; distinct by hash of the case.")
-BOUNDS = {"n": "3..12", "findwalks_n": "2..8", "residual_tol": 1e-8}
+BOUNDS = {"n": "3..12", "findwalks_n": "2..8 exact, 16..22 dense (counts beyond 2^63, rtol 1e-9 against exact big-integer powers)", "residual_tol": 1e-8}
 MIN_NONTRIVIAL = {"quick": 300, "thorough": 3000}
 
 
@@ -187,16 +187,22 @@ def check(case, ctx):
                 fails.append(Failure("findwalks:bad-return", repr(r)[:100], case))
                 return fails
             A = (W != 0).astype(float)
+            Aint = (W != 0).astype(int).astype(object)       # exact big-integer powers (no overflow, no rounding)
+            P = Aint.copy()
             for q in range(1, n):
-                want = np.linalg.matrix_power(A, q)
-                if Wq.ndim != 3 or Wq.shape[2] <= q or not np.array_equal(Wq[:, :, q], want):
+                if q > 1:
+                    P = P.dot(Aint)
+                want = P.astype(float)
+                exact_ok = float(want.max()) < 2.0 ** 53
+                got = Wq[:, :, q] if (Wq.ndim == 3 and Wq.shape[2] > q) else None
+                if got is None or not (np.array_equal(got, want) if exact_ok else np.allclose(got, want, rtol=1e-9, atol=0)):
                     fails.append(Failure("findwalks:Wq-not-matrix-power",
                                          "Wq[:,:,%d] is not A^%d (the number of walks of length %d)" % (q, q, q), case))
                     break
             if Wq.ndim == 3:
-                if not np.array_equal(wlq, Wq.sum(axis=(0, 1))):
+                if not np.allclose(wlq, Wq.sum(axis=(0, 1)), rtol=1e-12, atol=0):
                     fails.append(Failure("findwalks:wlq-not-sum-of-Wq", "", case))
-                if float(twalk) != float(Wq.sum()):
+                if not np.isclose(float(twalk), float(Wq.sum()), rtol=1e-12, atol=0):
                     fails.append(Failure("findwalks:twalk-not-total", "%r vs %r" % (twalk, Wq.sum()), case))
     return fails
 
@@ -283,6 +289,11 @@ def cases(draw, measures):
             else:
                 c["prior"] = None
         return c
+    if m == "findwalks" and draw(st.integers(0, 3)) == 0:
+        # large dense graphs: walk counts beyond 2^53 / 2^63 (float rounding is fine, integer wrap-around is not)
+        n = draw(st.integers(16, 22))
+        A = draw(gen.er_adj(n, False, "dense")) | gen.ring_adj(n)
+        return {"measure": m, "W": A.astype(float), "family": "dense-large"}
     A, fam = draw(spectral_graph(8 if m == "findwalks" else 12))
     if m == "eigenvector" and draw(st.booleans()):
         W = draw(gen.weights_for(A, "dyadic", False))
